@@ -293,7 +293,14 @@ def run_harness_lines(exe, ops, timeout=900):
     return p.returncode, p.stdout.splitlines(), p.stderr[-3000:]
 
 
-def trainer_sweeps(ctx, exe, nds):
+def dispatch_table(drv):
+    """the decision logic generated from CSvmTrainer::train, evaluated by the driver"""
+    ops = [f"dispatch {k} {F}" for k in range(2, 6) for F in FORMS]
+    out = subprocess.run([drv], input="\n".join(ops) + "\n", capture_output=True, text=True).stdout.splitlines()
+    return {(int(o.split()[1]), o.split()[2]): l for o, l in zip(ops, out)}
+
+
+def trainer_sweeps(ctx, exe, nds, disp=None):
     """all formulations x bias x shrinking x cache x permutation x batch size on small integer-point data sets;
     decision values compared across configurations within the bound that follows from the solver accuracy:
     two eps-KKT points of the same concave dual have objectives within eps*sum(U-L) of the optimum, hence weight
@@ -335,6 +342,16 @@ def trainer_sweeps(ctx, exe, nds):
                     outputs = int(res[0].get("outputs", "1"))
                     for cfg, rr in zip(cfgs, res):
                         ctx.hist("train_path", rr.get("path", "?"))
+                        # the path taken by the real trainer (verified inside the harness by the decision-map / two-class /
+                        # OVA oracles) must be the one the generated decision logic predicts
+                        if disp is not None:
+                            want = disp.get((k, F), "?")
+                            got = "path=" + rr.get("path", "?")
+                            if rr.get("path") == "mc":
+                                got += f" fam={rr.get('fam')} stz={rr.get('stz')} simplex={rr.get('simplex')}"
+                            if not want.startswith(got):
+                                key = f"oracle:dispatch:{F}"; what = f"trainer took {got!r}, generated decision logic says {want!r}"
+                                break
                         if rr["oracle"]:
                             key = f"oracle:{'+'.join(sorted(set(rr['oracle'])))}:{F}{'+b' if bias else ''}"
                             what = f"trainer-level oracle failed for config {cfg}: {rr['raw'][-300:]}"
@@ -416,7 +433,7 @@ def run(ctx):
     tcorp = [c for c in corpus if c[0].startswith("data")]
     for c in tcorp:
         replay_train(ctx, exe, c, report=True)
-    trainer_sweeps(ctx, exe, 10 if ctx.quick else 60)
+    trainer_sweeps(ctx, exe, 10 if ctx.quick else 60, dispatch_table(drv))
 
 
 def replay_train(ctx, exe, ops, report=False):
